@@ -490,6 +490,11 @@ class SourceCatalog:
         for attr in init_attr:
             setattr(newcls, attr, getattr(self, attr))
 
+        # the list of extra property names must not be shared between
+        # the two catalogs (it is modified in place when extra
+        # properties are added, renamed, or removed)
+        newcls._extra_properties = list(self._extra_properties)
+
         # _labels determines ordering and isscalar
         attr = '_labels'
         setattr(newcls, attr, getattr(self, attr)[index])
